@@ -234,7 +234,7 @@ HARNESSES = [
     R.H("set_prefix_syntax", ["hed.schema.hed_schema.HedSchema.set_schema_prefix"],
         quick=R.tier(cells=R.int_cells("VP_LEN", 0, 2), env={"VP_N": 2}, timeout=200,
                      bound="prefix body q: <= 2 printable ASCII chars, with/without colon"),
-        thorough=R.tier(cells=R.int_cells("VP_LEN", 0, 4), env={"VP_N": 4}, timeout=900, bound="q <= 4 chars"),
+        thorough=R.tier(cells=R.int_cells("VP_LEN", 0, 3), env={"VP_N": 3}, timeout=1500, bound="q <= 3 chars"),
         what="set_schema_prefix raises HedFileError iff the body is non-empty-required and not purely alphabetic; "
              "otherwise the stored namespace is the body plus ':'",
         oracle="inline", stubs=_ST, outside="non-ASCII prefixes"),
